@@ -276,7 +276,8 @@ def r4(ctx):
     ctx.check(good and w is None, f"{outer.key}._instance:registered-on-miss-branch",
               "the constructed instance is not registered in the session identity map on the same branch", "registered via _add_unpresent on the miss branch", outer.loc, w)
     keys_set = [st for st in walk_stmts(inst.body) if isinstance(st, ast.Assign) and any(isinstance(t, ast.Attribute) and t.attr == "key" for t in st.targets)]
-    same_key = same_key and bool(keys_set) and all(any(unparse(st.value) == k for loc, k in lookups) for st in keys_set)
+    kb = single_binds(inst)  # `new_key = identitykey; state.key = new_key` is the same key
+    same_key = same_key and bool(keys_set) and all(any(unparse(expand(st.value, kb)) in (k, unparse(expand(ast.parse(k, mode="eval").body, kb))) for loc, k in lookups) for st in keys_set)
     ctx.check(same_key, f"{outer.key}._instance:same-key", "the key looked up, the key given to the state and the key registered differ", "lookup key == state.key == registered key", outer.loc)
 
 
@@ -1055,13 +1056,81 @@ def _const_iter_entries(call_or_loop_iter, elt_key, elt_val, gens):
     return out
 
 
-def _dict_update_entries(arg, kws):
+def _const_loop_of(pm, fn, node, name: str):
+    """(the `for <name> in (<string constants>)` loop around node | None, node is under an `if` inside it)."""
+    cond, cur = False, pm.get(node)
+    while cur is not None and cur is not fn:
+        if isinstance(cur, ast.If):
+            cond = True
+        if isinstance(cur, ast.For) and isinstance(cur.target, ast.Name) and cur.target.id == name:
+            ok = isinstance(cur.iter, (ast.Tuple, ast.List, ast.Set)) and all(isinstance(e, ast.Constant) and isinstance(e.value, str) for e in cur.iter.elts)
+            return (cur if ok else None), cond
+        cur = pm.get(cur)
+    return None, cond
+
+
+def _local_collection_entries(fn, name: str, depth=0):
+    """Entries of a local dict / list of pairs that fn builds before handing it to `__dict__.update`: every binding of the name is a
+    display / comprehension / empty `dict()`/`{}`/`[]`, and it is otherwise only filled by `name[K] = v`, `name.append((K, v))`,
+    `name.update(...)` with K a string constant or the variable of a loop over string constants.  None = not understood."""
+    pm = {}
+    for p_ in ast.walk(fn):
+        for ch in ast.iter_child_nodes(p_):
+            pm[ch] = p_
+    out = []
+    binds = [(v, st) for n, v, st in name_stores(fn) if n == name]
+    if not binds or any(v is None for v, st in binds):
+        return None
+    for v, st in binds:
+        if isinstance(v, ast.Call) and isinstance(v.func, ast.Name) and v.func.id in ("dict", "list") and not v.args:
+            ents = [(k.arg, k.value, False) for k in v.keywords if k.arg is not None]
+        else:
+            ents = _dict_update_entries(v, [], fn, depth + 1)
+        if ents is None:
+            return None
+        out += ents
+
+    def keyed(knode, vnode, at):
+        if isinstance(knode, ast.Constant) and isinstance(knode.value, str):
+            return [(knode.value, vnode, False)]
+        if isinstance(knode, ast.Name):
+            loop, cond = _const_loop_of(pm, fn, at, knode.id)
+            if loop is not None:
+                return [(e.value, expand(vnode, {knode.id: ast.Constant(value=e.value)}), cond) for e in loop.iter.elts]
+        return None
+    for n in walk_local(fn):
+        ents = []
+        if isinstance(n, ast.Assign):
+            for t in n.targets:
+                if isinstance(t, ast.Subscript) and isinstance(t.value, ast.Name) and t.value.id == name:
+                    ents = keyed(t.slice, n.value, n)
+        elif isinstance(n, (ast.AugAssign, ast.Delete)) and any(isinstance(x, ast.Name) and x.id == name for x in ast.walk(n)):
+            ents = None
+        elif isinstance(n, ast.Call) and isinstance(n.func, ast.Attribute) and isinstance(n.func.value, ast.Name) and n.func.value.id == name:
+            if n.func.attr == "append" and len(n.args) == 1 and isinstance(n.args[0], ast.Tuple) and len(n.args[0].elts) == 2:
+                ents = keyed(n.args[0].elts[0], n.args[0].elts[1], n)
+            elif n.func.attr == "update" and len(n.args) <= 1:
+                ents = _dict_update_entries(n.args[0] if n.args else None, n.keywords, fn, depth + 1)
+            elif n.func.attr in ("items", "get", "keys", "values", "copy", "__contains__"):
+                ents = []
+            else:
+                ents = None
+        if ents is None:
+            return None
+        out += ents
+    return out
+
+
+def _dict_update_entries(arg, kws, fn=None, depth=0):
     """Entries written by `<x>.__dict__.update(arg, **kws)`: [(key, value expr, conditional)]; None = shape not understood."""
     out = [(k.arg, k.value, False) for k in kws if k.arg is not None]
     if any(k.arg is None for k in kws):
         return None
     if arg is None:
         return out
+    if isinstance(arg, ast.Name) and fn is not None and depth < 2:
+        r = _local_collection_entries(fn, arg.id, depth)
+        return None if r is None else out + r
     if isinstance(arg, ast.Dict):
         for k, v in zip(arg.keys, arg.values):
             if not (isinstance(k, ast.Constant) and isinstance(k.value, str)):
@@ -1113,7 +1182,7 @@ def _attr_writes(ctx, fn, var: str, fkey: str) -> Dict[str, List[Tuple[ast.stmt,
         elif isinstance(st, ast.Expr) and isinstance(st.value, ast.Call):
             c = st.value
             if isinstance(c.func, ast.Attribute) and c.func.attr == "update" and _is_own_dict(c.func.value, var):
-                ents = _dict_update_entries(c.args[0] if c.args else None, c.keywords) if len(c.args) <= 1 else None
+                ents = _dict_update_entries(c.args[0] if c.args else None, c.keywords, fn) if len(c.args) <= 1 else None
                 ctx.require(ents is not None, f"{fkey}: `{unparse(c)[:80]}` updates the state's __dict__ in a shape that is not understood")
                 for k, v, cond in ents:
                     add(k, st, v, cond)
@@ -1681,3 +1750,9 @@ R.mutant("benign-loader-token-from-key-component", LOADING,
          sub("                state.key = identitykey\n                state.identity_token = identity_token\n", "                state.key = identitykey\n                state.identity_token = identitykey[2]\n"), None)
 R.mutant("benign-flush-refresh-key-inline", "orm/persistence.py",
          sub("            if state.key is None:\n                state.key = identity_key\n", "            if state.key is None:\n                state.key = base_mapper._identity_key_from_state(state)\n"), None)
+# benign/rfH_3's shape (entries collected in a local dict, then one __dict__.update) and its breaking twin
+_SS_DICT = ("        restored = {}\n        for attrname in (\"key\", \"load_options\"):\n            if attrname in state_dict:\n"
+            "                restored[attrname] = state_dict[attrname]\n        self.__dict__.update(restored)\n")
+R.mutant("benign-setstate-entries-collected-in-a-local-dict", STATE, sub(_SS_UPD, _SS_DICT), None)
+R.mutant("setstate-local-dict-form-token-from-entry-getstate-never-writes", STATE,
+         sub(_SS_UPD + _SS_TOK, _SS_DICT.replace("(\"key\", \"load_options\")", "(\"key\", \"load_options\", \"identity_token\")")), "C34-R10")
